@@ -121,6 +121,17 @@ def canary_levels(text, linemap, names_extracted):
             for c in cands:
                 if c != q:
                     graph[q].add(c)
+    # `broadcast use X;` makes X's ensures ambient: an edge to X, and to every member when X is a broadcast group
+    groups = {}
+    for gm in re.finditer(r"broadcast\s+group\s+([A-Za-z_][A-Za-z0-9_]*)\s*\{([^}]*)\}", m):
+        groups[gm.group(1)] = [x.strip().split("::")[-1] for x in gm.group(2).split(",") if x.strip()]
+    for q, body in nodes.items():
+        for bm in re.finditer(r"broadcast\s+use\s+([^;]+);", body):
+            for nm in [x.strip().split("::")[-1] for x in bm.group(1).split(",")]:
+                for target in groups.get(nm, [nm]):
+                    for c in short.get(target, []):
+                        if c != q:
+                            graph[q].add(c)
     # calls that are not visible by name: conversions behind `.into()` / `?`, operators
     implicit = [(r"\.\s*into\s*\(|\?", "from"), (r"\.\s*try_into\s*\(", "try_from"), (r"\|=", "bitor_assign"),
                 (r"[^|]\|[^|=]", "bitor"), (r"==|!=", "eq"), (r"\.\s*into_iter\s*\(|\bfor\b", "next")]
@@ -340,7 +351,7 @@ def run_unit(name, tier="quick", use_cache=True, canary=True, repo=None):
             "units/%s/unit.rs:%s" % (name, rec.get("uline", "?")),
             "unit-authored %s fn (lemma / verified helper)" % f["mode"])
     # ---------------------------------------------------------------- verus run
-    rl = 40 if tier == "thorough" else None
+    rl = 40 if (tier == "thorough" and "--rlimit" not in unit_flags(unit_dir)) else None
     xflags = unit_flags(unit_dir)
     rflags = unit_rustc_flags(unit_dir)
     for fl in xflags:
